@@ -38,13 +38,15 @@ Proof.
   intros name t lv a Hn C. destruct (writable_spec a (wt_increment_operand name t lv a Hn C)) as (L & P & _). split; assumption.
 Qed.
 
-(* calls: as many operands as parameters, each of its parameter's type (template parameters aside), and a writable
-   lvalue wherever the parameter is out or inout *)
-Theorem C03_call : forall intrinsic params ret t lv args,
-  check_node (KCall false intrinsic params ret) t lv args = None ->
+(* calls: one operand per parameter - only parameters with default values (those from index nd on) may be left out,
+   from the end -, each of its parameter's type (template parameters aside), and a writable lvalue wherever the
+   parameter is out or inout *)
+Theorem C03_call : forall intrinsic nd params ret t lv args,
+  check_node (KCall false intrinsic nd params ret) t lv args = None ->
   Forall2 (fun (p : N * ty) a =>
              (same (e_ty a) (snd p) = true \/ exists i, strip (snd p) = TParam i) /\
-             (fst p <> 0 -> writable a = true)) params args /\ t = ret /\ lv = false.
+             (fst p <> 0 -> writable a = true)) (firstn (List.length args) params) args /\
+  (N.to_nat nd <= List.length args <= List.length params)%nat /\ t = ret /\ lv = false.
 Proof. exact wt_call_operands. Qed.
 
 (* returns and initialisers *)
@@ -68,7 +70,7 @@ Definition ex_assign (smod : N) : expr := Node (KOp "Assignment") tf true [ex_lh
 Example C03_example :
   wt (ex_assign 0) = None /\
   wt (ex_assign 1) = Some "assignment to something that is not a writable lvalue" /\
-  wt (Node (KCall false false [(1, ti)] TVoid) TVoid false [Node KVar (TMod 1 ti) true []]) = Some "out / inout argument is not a writable lvalue" /\
+  wt (Node (KCall false false 1 [(1, ti)] TVoid) TVoid false [Node KVar (TMod 1 ti) true []]) = Some "out / inout argument is not a writable lvalue" /\
   wt (Node (KOp "Add") tf false [Node KVar ti true []; Node KLit tf false []]) = Some "operands of an arithmetic operation have different types".
 Proof. vm_compute. repeat split. Qed.
 
